@@ -56,23 +56,29 @@ def run(ctx, rep):
         good = False
         END0 = T.agg("adt", "io::SeekFrom", 1, "End", [T.const("i64", 0)])
 
-        def is_measured(an_, v, depth=0):
-            """v is the Ok payload of a seek(End(0)) performed in an_'s function, or of a helper (allowed to do I/O) that returns exactly that"""
+        def is_measured(an_, v, depth=0, bind=None):
+            """v is the Ok payload of a seek(End(0)) performed in an_'s function, or of a helper (allowed to do I/O) that returns exactly that;
+            bind = (caller analysis, call site) when an_ is such a helper, so that its seek target can be read in the caller's terms"""
+            from ..engine import program, State
+            prog_ = program(F)
             if not (v.op == "payload" and v.args[1] == "Ok"):
                 return False
             src = v.args[0]
             seeks = [c for c in an_.calls() if c.declared_norm == "io::Seek::seek"]
-            if len(seeks) == 1 and src is seeks[0].result and seeks[0].args[1] is END0:
-                return True
+            if len(seeks) == 1 and src is seeks[0].result:
+                tgt = seeks[0].args[1]
+                if bind is not None and tgt is not END0:
+                    can, ccs = bind
+                    stc = State(can.exit_env.get(ccs.block, {}), ccs.facts)
+                    tgt = prog_.subst(can, stc, tgt, [prog_._stabilise(can, stc, a_) for a_ in ccs.args])
+                return tgt is END0
             cs = an_.call_site_of(src)
-            from ..engine import program
-            lf = program(F).local_fn(cs.callee) if cs is not None else None
+            lf = prog_.local_fn(cs.callee) if cs is not None else None
             if lf is None or depth > 2 or lf["qual"] not in io_home(F):
                 return False
             sub = analyze_fn(F, lf)
             oks = [t for t, st in sub.ret_leaves() or [] if not (t.op == "agg" and t.args[3] == "Err")]
-            return bool(oks) and all(is_measured(sub, T.payload(t, "Ok"), depth + 1) or
-                                     (t.op == "call" and t.args[0] == "io::Seek::seek" and is_measured(sub, T.payload(t, "Ok"), depth + 1)) for t in oks)
+            return bool(oks) and all(is_measured(sub, T.payload(t, "Ok"), depth + 1, (an_, cs)) for t in oks)
         for t, st in an.ret_leaves() or []:
             if t.op == "agg" and t.args[3] == "Ok":
                 cr = t.args[4][0]
